@@ -1,2 +1,152 @@
-(* placeholder *)
-From GT Require Import Base.Prelude Model.NFA Model.NFAOps.
+(* C18 — NFA operations and the regular-expression-to-NFA generator (gambatools.nfa_algorithms: nfa_union,
+   nfa_concatenation, nfa_repetition, as repaired by fix F9; gambatools.regexp_algorithms: RegexpToNFAGenerator.generate /
+   regexp_to_nfa).
+   "For all NFAs with disjoint state sets, whatever their epsilon symbol and state names, union / concatenation /
+   repetition return a valid NFA whose language is exactly the union / concatenation / Kleene star of the operand
+   languages; the state they introduce is distinct from every operand state."
+   Model: Model/NFA.v (automaton, `ndelta`, `nfa_path`, `nfa_lang`, `nfa_wf` = NFA._check_validity) and Model/NFAOps.v
+   (the routines).  Conventions:
+   * `names` is the stream of names produced by the identifier generator ('q{index}', 'q{index+1}', ...): any list,
+     i.e. any call history of the generator; a routine returns the automaton and the unused rest of the stream;
+     `None` models an AssertionError (overlapping state sets, invalid result) or an exhausted stream;
+   * `star_lang L` (Proofs/NFAOpsProofs.v) is the Kleene star of a language: [] | u ++ v with L u and star_lang L v;
+   * `NoDup (map fst (nD N))` = the keys of a Python dict are unique.  It is needed for the operands: `ndelta` reads an
+     association list through its first entry while the routines merge all entries (C18_*_unique_keys_needed give a
+     valid automaton with a repeated key for which each language statement fails).  The results satisfy it again;
+   * the word condition.  The specification `nfa_path` lets a letter that equals the epsilon symbol take an epsilon
+     move (np_sym has no guard), and the routines re-key the epsilon moves of the second operand to the epsilon symbol
+     of the first.  The language statements are therefore about words that contain neither epsilon symbol
+     (C18_word_condition_needed: the star automaton of {[]} "accepts" the one-letter word [epsilon]).  For words over
+     the alphabet of the result the condition is automatic as soon as the epsilon symbol of the second operand is not
+     a letter of the first (in particular when both operands use the same epsilon symbol): C18_*_alphabet;
+   * failure is characterised exactly (C18_*_failure) for valid operands: overlapping state sets, a stream without a
+     usable name, or the epsilon symbol of the first operand being a letter of the second (the result would violate
+     epsilon ∉ Sigma, so the NFA constructor raises);
+   * regexp -> NFA: `eps0` is Symbol(''), `names` any stream of pairwise distinct names; the hypothesis
+     ~ In eps0 (re_symbols r) is needed for validity (Sym eps0 alone yields an automaton with epsilon ∈ Sigma, which
+     the model, like the Python, returns unchecked); 2 * nodes r names always suffice.
+   Proofs: Proofs/NFAOpsProofs.v. *)
+From GT Require Import Base.Prelude Model.NFA Model.Regexp Model.NFAOps Proofs.NFAOpsProofs.
+
+(* ---- union ---- *)
+Theorem C18_union : forall (names : list nat) (N1 N2 R : nfa nat) (rest : list nat),
+  nfa_wf N1 -> nfa_wf N2 -> NoDup (map fst (nD N1)) -> NoDup (map fst (nD N2)) ->
+  nfa_union names N1 N2 = Some (R, rest) ->
+  nfa_wf R /\ NoDup (map fst (nD R)) /\ ~ In (nq0 R) (nQ N1) /\ ~ In (nq0 R) (nQ N2) /\ neps R = neps N1 /\
+  (forall a, In a (nS R) <-> In a (nS N1) \/ In a (nS N2)) /\
+  (forall q, In q (nQ R) <-> In q (nQ N1) \/ In q (nQ N2) \/ q = nq0 R) /\
+  (exists pre, names = pre ++ nq0 R :: rest /\ forall y, In y pre -> In y (nQ N1) \/ In y (nQ N2)) /\
+  (forall w, Forall (fun a => a <> neps N1 /\ a <> neps N2) w -> (nfa_lang R w <-> nfa_lang N1 w \/ nfa_lang N2 w)).
+Proof. exact (@nfa_union_correct nat _). Qed.
+Print Assumptions C18_union.
+
+Theorem C18_union_alphabet : forall (names : list nat) (N1 N2 R : nfa nat) (rest : list nat),
+  nfa_wf N1 -> nfa_wf N2 -> NoDup (map fst (nD N1)) -> NoDup (map fst (nD N2)) -> ~ In (neps N2) (nS N1) ->
+  nfa_union names N1 N2 = Some (R, rest) ->
+  forall w, Forall (fun a => In a (nS R)) w -> (nfa_lang R w <-> nfa_lang N1 w \/ nfa_lang N2 w).
+Proof. exact (@nfa_union_correct_alphabet nat _). Qed.
+Print Assumptions C18_union_alphabet.
+
+Theorem C18_union_failure : forall (names : list nat) (N1 N2 : nfa nat), nfa_wf N1 -> nfa_wf N2 ->
+  (nfa_union names N1 N2 = None <->
+   (exists x, In x (nQ N1) /\ In x (nQ N2)) \/ (forall y, In y names -> In y (nQ N1) \/ In y (nQ N2)) \/ In (neps N1) (nS N2)).
+Proof. exact (@nfa_union_none nat _). Qed.
+Print Assumptions C18_union_failure.
+
+Theorem C18_union_succeeds : forall (names : list nat) (N1 N2 : nfa nat), nfa_wf N1 -> nfa_wf N2 ->
+  (forall x, In x (nQ N1) -> ~ In x (nQ N2)) -> (exists y, In y names /\ ~ In y (nQ N1) /\ ~ In y (nQ N2)) ->
+  neps N1 = neps N2 -> nfa_union names N1 N2 <> None.
+Proof. exact (@nfa_union_succeeds nat _). Qed.
+Print Assumptions C18_union_succeeds.
+
+(* ---- concatenation ---- *)
+Theorem C18_concatenation : forall (N1 N2 R : nfa nat),
+  nfa_wf N1 -> nfa_wf N2 -> NoDup (map fst (nD N1)) -> NoDup (map fst (nD N2)) ->
+  nfa_concatenation N1 N2 = Some R ->
+  nfa_wf R /\ NoDup (map fst (nD R)) /\ neps R = neps N1 /\ nq0 R = nq0 N1 /\
+  (forall a, In a (nS R) <-> In a (nS N1) \/ In a (nS N2)) /\
+  (forall q, In q (nQ R) <-> In q (nQ N1) \/ In q (nQ N2)) /\
+  (forall w, Forall (fun a => a <> neps N1 /\ a <> neps N2) w ->
+     (nfa_lang R w <-> exists u v, w = u ++ v /\ nfa_lang N1 u /\ nfa_lang N2 v)).
+Proof. exact (@nfa_concatenation_correct nat _). Qed.
+Print Assumptions C18_concatenation.
+
+Theorem C18_concatenation_alphabet : forall (N1 N2 R : nfa nat),
+  nfa_wf N1 -> nfa_wf N2 -> NoDup (map fst (nD N1)) -> NoDup (map fst (nD N2)) -> ~ In (neps N2) (nS N1) ->
+  nfa_concatenation N1 N2 = Some R ->
+  forall w, Forall (fun a => In a (nS R)) w -> (nfa_lang R w <-> exists u v, w = u ++ v /\ nfa_lang N1 u /\ nfa_lang N2 v).
+Proof. exact (@nfa_concatenation_correct_alphabet nat _). Qed.
+Print Assumptions C18_concatenation_alphabet.
+
+Theorem C18_concatenation_failure : forall (N1 N2 : nfa nat), nfa_wf N1 -> nfa_wf N2 ->
+  (nfa_concatenation N1 N2 = None <-> (exists x, In x (nQ N1) /\ In x (nQ N2)) \/ In (neps N1) (nS N2)).
+Proof. exact (@nfa_concatenation_none nat _). Qed.
+Print Assumptions C18_concatenation_failure.
+
+Theorem C18_concatenation_succeeds : forall (N1 N2 : nfa nat), nfa_wf N1 -> nfa_wf N2 ->
+  (forall x, In x (nQ N1) -> ~ In x (nQ N2)) -> neps N1 = neps N2 -> nfa_concatenation N1 N2 <> None.
+Proof. exact (@nfa_concatenation_succeeds nat _). Qed.
+Print Assumptions C18_concatenation_succeeds.
+
+(* ---- repetition ---- *)
+Theorem C18_repetition : forall (names : list nat) (N R : nfa nat) (rest : list nat),
+  nfa_wf N -> NoDup (map fst (nD N)) -> nfa_repetition names N = Some (R, rest) ->
+  nfa_wf R /\ NoDup (map fst (nD R)) /\ ~ In (nq0 R) (nQ N) /\ neps R = neps N /\ nS R = nS N /\
+  (forall q, In q (nQ R) <-> In q (nQ N) \/ q = nq0 R) /\
+  (exists pre, names = pre ++ nq0 R :: rest /\ forall y, In y pre -> In y (nQ N)) /\
+  (forall w, Forall (fun a => a <> neps N) w -> (nfa_lang R w <-> star_lang (nfa_lang N) w)).
+Proof. exact (@nfa_repetition_correct nat _). Qed.
+Print Assumptions C18_repetition.
+
+Theorem C18_repetition_alphabet : forall (names : list nat) (N R : nfa nat) (rest : list nat),
+  nfa_wf N -> NoDup (map fst (nD N)) -> nfa_repetition names N = Some (R, rest) ->
+  forall w, Forall (fun a => In a (nS N)) w -> (nfa_lang R w <-> star_lang (nfa_lang N) w).
+Proof. exact (@nfa_repetition_correct_alphabet nat _). Qed.
+Print Assumptions C18_repetition_alphabet.
+
+Theorem C18_repetition_failure : forall (names : list nat) (N : nfa nat), nfa_wf N ->
+  (nfa_repetition names N = None <-> forall y, In y names -> In y (nQ N)).
+Proof. exact (@nfa_repetition_none nat _). Qed.
+Print Assumptions C18_repetition_failure.
+
+(* ---- the hypotheses are needed ---- *)
+Theorem C18_union_unique_keys_needed :
+  nfa_wf dupN1 /\ nfa_wf dupN2 /\ (forall x, In x (nQ dupN1) -> ~ In x (nQ dupN2)) /\
+  exists R rest, nfa_union [3] dupN1 dupN2 = Some (R, rest) /\
+    Forall (fun a => a <> neps dupN1 /\ a <> neps dupN2) [5] /\
+    nfa_lang R [5] /\ ~ (nfa_lang dupN1 [5] \/ nfa_lang dupN2 [5]).
+Proof. exact nfa_union_needs_unique_keys. Qed.
+Print Assumptions C18_union_unique_keys_needed.
+
+Theorem C18_concatenation_unique_keys_needed :
+  nfa_wf dupN2 /\ nfa_wf dupN1 /\ (forall x, In x (nQ dupN2) -> ~ In x (nQ dupN1)) /\
+  exists R, nfa_concatenation (mkNFA [2] [] [] 2 [2] 9) dupN1 = Some R /\
+    nfa_lang R [5] /\ ~ (exists u v, [5] = u ++ v /\ nfa_lang (mkNFA [2] [] [] 2 [2] 9) u /\ nfa_lang dupN1 v).
+Proof. exact nfa_concatenation_needs_unique_keys. Qed.
+Print Assumptions C18_concatenation_unique_keys_needed.
+
+Theorem C18_repetition_unique_keys_needed :
+  nfa_wf dupN1 /\ exists R rest, nfa_repetition [3] dupN1 = Some (R, rest) /\
+    Forall (fun a => a <> neps dupN1) [5] /\ nfa_lang R [5] /\ ~ star_lang (nfa_lang dupN1) [5].
+Proof. exact nfa_repetition_needs_unique_keys. Qed.
+Print Assumptions C18_repetition_unique_keys_needed.
+
+Theorem C18_word_condition_needed :
+  let N := mkNFA [0] [] [] 0 [0] 9 in
+  nfa_wf N /\ NoDup (map fst (nD N)) /\ exists R rest, nfa_repetition [3] N = Some (R, rest) /\
+    nfa_lang R [9] /\ ~ star_lang (nfa_lang N) [9].
+Proof. exact nfa_repetition_word_condition_needed. Qed.
+Print Assumptions C18_word_condition_needed.
+
+(* ---- regular expression -> NFA ---- *)
+Theorem C18_regexp_to_nfa : forall (eps0 : nat) (r : re) (names : list nat) (N : nfa nat) (rest : list nat),
+  NoDup names -> ~ In eps0 (re_symbols r) -> re_to_nfa eps0 r names = Some (N, rest) ->
+  nfa_wf N /\ neps N = eps0 /\ (exists used, names = used ++ rest /\ forall q, In q (nQ N) -> In q used) /\
+  (forall w, ~ In eps0 w -> (nfa_lang N w <-> re_lang r w)).
+Proof. exact (@re_to_nfa_correct nat _). Qed.
+Print Assumptions C18_regexp_to_nfa.
+
+Theorem C18_regexp_to_nfa_total : forall (eps0 : nat) (r : re) (names : list nat),
+  NoDup names -> ~ In eps0 (re_symbols r) -> 2 * nodes r <= length names -> re_to_nfa eps0 r names <> None.
+Proof. exact (@re_to_nfa_total nat _). Qed.
+Print Assumptions C18_regexp_to_nfa_total.
